@@ -284,6 +284,11 @@ func H_C02_quoted(v *V) {
 		v.Reach("error")
 	}
 	v.ObserveStr("val", b.val)
+	if kind == 7 {
+		// unquote:"false" is the documented opt-out: the literal is kept verbatim
+		v.Assert(b.errNil && v.EqStr(b.val, Q), "with unquote:\"false\" a quoted literal is stored verbatim")
+		return
+	}
 	v.Assert(a.errNil == b.errNil, "the quoted literal and the plain value both succeed or both fail")
 	v.Assert(a.typed == b.typed && a.etype == b.etype, "the quoted literal gives the same error type")
 	v.Assert(v.EqStr(a.val, b.val) && a.ival == b.ival && v.EqStrs(a.vals, b.vals), "the quoted literal stores the same value")
